@@ -79,7 +79,7 @@ type fundAndSign struct {
 func (fs *fundAndSign) FundV2Transaction(txn *types.V2Transaction, amount types.Currency) (types.ChainIndex, []int, error) {
 	return fs.w.FundV2Transaction(txn, amount, true)
 }
-func (fs *fundAndSign) RecommendedFee() types.Currency              { return fs.w.RecommendedFee() }
+func (fs *fundAndSign) RecommendedFee() types.Currency               { return fs.w.RecommendedFee() }
 func (fs *fundAndSign) ReleaseInputs(txns []types.V2Transaction)     { fs.w.ReleaseInputs(nil, txns) }
 func (fs *fundAndSign) SignV2Inputs(t *types.V2Transaction, s []int) { fs.w.SignV2Inputs(t, s) }
 func (fs *fundAndSign) SignHash(h types.Hash256) types.Signature     { return fs.pk.SignHash(h) }
@@ -87,14 +87,14 @@ func (fs *fundAndSign) SignHash(h types.Hash256) types.Signature     { return fs
 // duplexFault corrupts one direction of the stream at a byte offset, or cuts it there.
 type duplexFault struct {
 	net.Conn
-	dir       string // "h2r" or "r2h"
-	mode      string // flip, cut
-	at        int
-	seenR     int
-	seenW     int
-	recR      *bytes.Buffer
-	recW      *bytes.Buffer
-	cutDone   bool
+	dir     string // "h2r" or "r2h"
+	mode    string // flip, cut
+	at      int
+	seenR   int
+	seenW   int
+	recR    *bytes.Buffer
+	recW    *bytes.Buffer
+	cutDone bool
 }
 
 func (c *duplexFault) Read(p []byte) (int, error) {
@@ -197,7 +197,9 @@ func (r *c16Rig) form(ctx context.Context) (rhp.RPCFormContractResult, error) {
 
 // checkSuccess: both parties hold the same fully signed contract; the set is accepted by a pool and,
 // once mined, creates exactly that contract.
-func (r *c16Rig) checkFormSuccess(res rhp.RPCFormContractResult) string { return r.checkFormSuccessX(res, true) }
+func (r *c16Rig) checkFormSuccess(res rhp.RPCFormContractResult) string {
+	return r.checkFormSuccessX(res, true)
+}
 
 // checkFormSuccessX: with hostHonest=false (the host->renter stream was corrupted) the basis and parent
 // transactions of the returned set are whatever the host sent and cannot be checked by the renter; only the
@@ -349,10 +351,10 @@ func c16() {
 func c16Run() {
 	u, idx := c16Universe()
 	type basisRel struct {
-		name            string
+		name             string
 		hostAt, renterAt int
-		hostKnows       []int
-		expectOK        bool
+		hostKnows        []int
+		expectOK         bool
 	}
 	rels := []basisRel{
 		{"same-tip", idx["m3"], idx["m3"], nil, true},
@@ -474,6 +476,7 @@ func c16Run() {
 		}
 	})
 	c16Exhaustion(u, idx)
+	c16ForeignInputs(u, idx)
 	run.Extra[fmt.Sprintf("fault_runs(trusting=%v)", c16Trusting)] = len(jobs)
 	run.Extra[fmt.Sprintf("runs_succeeding(trusting=%v)", c16Trusting)] = okRuns
 	run.Extra[fmt.Sprintf("runs_failing(trusting=%v)", c16Trusting)] = failRuns
@@ -520,4 +523,77 @@ func c16Exhaustion(u *univ.Universe, idx map[string]int) {
 		run.Violate(parts[0], "honest formation after 20 failures: "+parts[1], nil)
 	}
 	run.Add(21, 21, 21, 21)
+}
+
+// evilSigner funds honestly and then also lists a foreign output (one that belongs to the host's wallet and
+// is reserved by another of the host's attempts) among the renter's inputs.
+type evilSigner struct {
+	*fundAndSign
+	extra types.V2SiacoinInput
+}
+
+func (e *evilSigner) FundV2Transaction(txn *types.V2Transaction, amount types.Currency) (types.ChainIndex, []int, error) {
+	basis, toSign, err := e.fundAndSign.FundV2Transaction(txn, amount)
+	if err == nil {
+		txn.SiacoinInputs = append(txn.SiacoinInputs, e.extra)
+	}
+	return basis, toSign, err
+}
+
+// c16ForeignInputs: while one of the host's outputs is reserved for some other attempt, a renter lists that very
+// output among its own inputs. The attempt cannot succeed (the renter cannot sign for it), and when it fails
+// the host must release what *it* reserved for this attempt - not the output the renter pointed at.
+func c16ForeignInputs(u *univ.Universe, idx map[string]int) {
+	saved := c16Trusting
+	c16Trusting = false
+	defer func() { c16Trusting = saved }()
+	for _, kind := range []string{"form", "renew", "refresh-full", "refresh-partial"} {
+		var r *c16Rig
+		var rr *renewRig
+		if kind == "form" {
+			r = newC16Rig(u, idx["m3"], idx["m3"], nil)
+		} else {
+			var err error
+			rr, err = newRenewRig()
+			if err != nil {
+				run.Violate("c16:renew-setup", err.Error(), nil)
+				return
+			}
+			r = rr.c16Rig
+		}
+		other := types.V2Transaction{}
+		if _, _, err := r.host.w.FundV2Transaction(&other, types.Siacoins(1), false); err != nil || len(other.SiacoinInputs) == 0 {
+			run.Violate("c16:foreign-setup", fmt.Sprintf("host cannot reserve an output: %v", err), nil)
+			r.close()
+			continue
+		}
+		before := r.host.footprint()
+		honest := r.signer
+		hostPolicy := types.SpendPolicy{Type: types.PolicyTypeUnlockConditions(types.StandardUnlockConditions(r.u.As[2].Key.PublicKey()))}
+		evil := &evilSigner{fundAndSign: honest, extra: types.V2SiacoinInput{Parent: other.SiacoinInputs[0].Parent.Copy(),
+			SatisfiedPolicy: types.SatisfiedPolicy{Policy: hostPolicy, Signatures: []types.Signature{{1}}}}}
+		cctx, cancel := context.WithTimeout(context.Background(), 5*time.Second)
+		var err error
+		if kind == "form" {
+			cs := r.renter.n.CM.TipState()
+			_, err = rhp.RPCFormContract(cctx, r.w.T, r.renter.n.CM, evil, cs, r.w.Prices, r.w.HostKey.PublicKey(), r.w.Settings.WalletAddress, proto4.RPCFormContractParams{
+				RenterPublicKey: r.u.As[1].Key.PublicKey(), RenterAddress: r.u.As[1].Addr,
+				Allowance: types.Siacoins(25), Collateral: types.Siacoins(20), ProofHeight: cs.Index.Height + 50,
+			})
+		} else {
+			rr.signerOverride = evil
+			_, _, err = rr.call(cctx, kind)
+			rr.signerOverride = nil
+		}
+		cancel()
+		r.w.T.WaitIdle()
+		run.Add(1, 1, 1, 1)
+		run.Distinct("foreign-input", kind, err == nil)
+		if err == nil {
+			run.Violate("c16:foreign-input-accepted:"+kind, kind+": an attempt listing an output of the host's own wallet among the renter's inputs succeeded", nil)
+		} else if after := r.host.footprint(); after != before {
+			run.Violate("c16:foreign-reservation-released:"+kind, fmt.Sprintf("%s: the renter listed an output of the host's wallet that is reserved for another attempt among its inputs; the attempt failed (%v) and the host released that reservation too: host wallet before %s, after %s", kind, err, before, after), map[string]any{"rpc": kind})
+		}
+		r.close()
+	}
 }
